@@ -109,10 +109,18 @@ def run(cmd, cwd, env=None, timeout=900):
     e = dict(os.environ, CARGO_NET_OFFLINE="true")
     if env:
         e.update(env)
+    # own process group, so that a timed-out `cargo test` takes its (possibly spinning) test binary with it
+    import signal
+    p = subprocess.Popen(cmd, cwd=cwd, env=e, stdout=subprocess.PIPE, stderr=subprocess.STDOUT, text=True, start_new_session=True)
     try:
-        r = subprocess.run(cmd, cwd=cwd, env=e, capture_output=True, text=True, timeout=timeout)
-        return r.returncode, r.stdout + r.stderr
+        out, _ = p.communicate(timeout=timeout)
+        return p.returncode, out
     except subprocess.TimeoutExpired:
+        try:
+            os.killpg(p.pid, signal.SIGKILL)
+        except ProcessLookupError:
+            pass
+        p.wait()
         return 124, "timeout"
 
 
